@@ -92,7 +92,7 @@ func MutexOp(c ssa.CallInstruction) (op string, path string, ok bool) {
 	default:
 		return "", "", false
 	}
-	a := Arg(c, 0)
+	a := ArgRaw(c, 0)
 	if a == nil {
 		return "", "", false
 	}
